@@ -209,3 +209,18 @@ pub fn run_document(src: &str) -> Result<(Vec<String>, Outcome, Snapshot, Vec<(u
   named.sort_by_key(|x| x.0);
   Ok((kinds, out, main, named))
 }
+
+// ------------------------------------------------------------------------------------------
+// allocation probe: a pass-through global allocator that remembers the largest single request, so that "allocates without bound"
+// (C07) is observed directly and not only when the request happens to exceed the worker's address-space limit
+pub struct ProbeAlloc;
+static MAX_REQUEST: std::sync::atomic::AtomicUsize = std::sync::atomic::AtomicUsize::new(0);
+unsafe impl std::alloc::GlobalAlloc for ProbeAlloc {
+  unsafe fn alloc(&self, l: std::alloc::Layout) -> *mut u8 { MAX_REQUEST.fetch_max(l.size(), std::sync::atomic::Ordering::Relaxed); std::alloc::System.alloc(l) }
+  unsafe fn alloc_zeroed(&self, l: std::alloc::Layout) -> *mut u8 { MAX_REQUEST.fetch_max(l.size(), std::sync::atomic::Ordering::Relaxed); std::alloc::System.alloc_zeroed(l) }
+  unsafe fn dealloc(&self, p: *mut u8, l: std::alloc::Layout) { std::alloc::System.dealloc(p, l) }
+  unsafe fn realloc(&self, p: *mut u8, l: std::alloc::Layout, n: usize) -> *mut u8 { MAX_REQUEST.fetch_max(n, std::sync::atomic::Ordering::Relaxed); std::alloc::System.realloc(p, l, n) }
+}
+/// resets the probe; `largest_request()` then reports the largest single allocation request since
+pub fn reset_alloc_probe() { MAX_REQUEST.store(0, std::sync::atomic::Ordering::Relaxed); }
+pub fn largest_request() -> usize { MAX_REQUEST.load(std::sync::atomic::Ordering::Relaxed) }
